@@ -110,7 +110,7 @@ fn case(item: u64, rng: &mut Rng, acc: &mut Acc, quick: bool) {
             }
         }
     }
-    if item < 2 {
+    if acc.samples.is_empty() {
         acc.sample(json!({"graph": su.g.describe(), "json_bytes": js.len(), "cbor_bytes": cb.len(), "probe_points": pts.len()}));
     }
     if !fails.is_empty() {
